@@ -117,6 +117,7 @@ def validate_time(hour: int, minute: int, second: int, franctional_second: int) 
 
 
 SIMPLE_TWO_DIGITS_FORMATS = ("d", "m", "H", "M")
+ASCII_DIGITS = frozenset("0123456789")
 
 
 class DateTimeParser:
@@ -237,27 +238,35 @@ class DateTimeParser:
         """Parse the given number of digits."""
         start = self.vidx
         self.vidx += digits
-        return int(self.value[start : self.vidx])
+        return self.to_int(self.value[start : self.vidx], digits)
 
     def parse_minimum_digits(self, min_digits: int) -> int:
         """Parse until the next character is not a digit."""
         start = self.vidx
         self.vidx += min_digits
 
-        while self.has_more() and self.peek().isdigit():
+        while self.has_more() and self.peek() in ASCII_DIGITS:
             self.vidx += 1
 
-        return int(self.value[start : self.vidx])
+        return self.to_int(self.value[start : self.vidx], min_digits)
 
     def parse_fixed_digits(self, max_digits: int) -> int:
         """Parse a fixed number of digits."""
         start = self.vidx
         just = max_digits
-        while max_digits and self.has_more() and self.peek().isdigit():
+        while max_digits and self.has_more() and self.peek() in ASCII_DIGITS:
             self.vidx += 1
             max_digits -= 1
 
-        return int(self.value[start : self.vidx].ljust(just, "0"))
+        return self.to_int(self.value[start : self.vidx], 1) * 10 ** max_digits
+
+    @classmethod
+    def to_int(cls, raw: str, min_digits: int) -> int:
+        """Convert ascii digits to int, signs, blanks and other digits are invalid."""
+        if len(raw) < min_digits or not ASCII_DIGITS.issuperset(raw):
+            raise ValueError
+
+        return int(raw)
 
     def parse_offset(self) -> int | None:
         """Parse the xml timezone offset as minutes."""
